@@ -2,6 +2,8 @@ package props
 
 import (
 	"embed"
+	"go/scanner"
+	"go/token"
 	"regexp"
 	"sync"
 )
@@ -30,8 +32,20 @@ func KeepName(name string) bool {
 			if err != nil {
 				continue
 			}
-			for _, w := range identRE.FindAllString(string(b), -1) {
-				keepWords[w] = true
+			// identifiers and the words inside string literals; comments do not name anchors
+			fset := token.NewFileSet()
+			var sc scanner.Scanner
+			sc.Init(fset.AddFile(e.Name(), -1, len(b)), b, nil, 0)
+			for {
+				_, tok, lit := sc.Scan()
+				if tok == token.EOF {
+					break
+				}
+				if tok == token.IDENT || tok == token.STRING || tok == token.CHAR {
+					for _, w := range identRE.FindAllString(lit, -1) {
+						keepWords[w] = true
+					}
+				}
 			}
 		}
 	})
